@@ -99,6 +99,7 @@ Kind(k) ==
   CASE k = "none"                   -> K(<<>>, FALSE)
     \* ---- external variables
     [] k = "ext_str"                -> K(<<A("ext-str", "x", "inline", T_eq, "none")>>, TRUE)
+    [] k = "ext_str_empty"          -> K(<<A("ext-str", "x", "inline", <<>>, "none")>>, TRUE)      \* x=   (the empty string)
     [] k = "ext_str_env"            -> K(<<A("ext-str", "x", "env", T_env, "none")>>, TRUE)
     [] k = "ext_env_unset"          -> K(<<A("ext-str", "x", "envunset", <<>>, "none")>>, TRUE)
     [] k = "ext_str_file"           -> K(<<A("ext-str-file", "x", "file", T_file, "none")>>, TRUE)
@@ -118,6 +119,7 @@ Kind(k) ==
                                            A("ext-str", "x", "inline", T_eq, "none")>>, TRUE)
     \* ---- top-level arguments
     [] k = "tla_str"                -> K(<<A("tla-str", "x", "inline", T_eq, "none")>>, FALSE)
+    [] k = "tla_str_empty"          -> K(<<A("tla-str", "x", "inline", <<>>, "none")>>, FALSE)     \* x=
     [] k = "tla_str_env"            -> K(<<A("tla-str", "x", "env", T_env, "none")>>, FALSE)
     [] k = "tla_env_unset"          -> K(<<A("tla-str", "x", "envunset", <<>>, "none")>>, FALSE)
     [] k = "tla_code"               -> K(<<A("tla-code", "x", "inline", T_cd, "concat")>>, FALSE)
